@@ -74,8 +74,22 @@ def expiry_run(sc, out):
             regs = {}
             plan = [("W", 9.0, 2), ("X", 17.0, 1), ("Y", 22.0, 2), ("Z", 24.0, 3)]
             end = t0 + 41.5
+            beat_ip, beat_at, last_beat, nbeats = "10.3.0.7", 17.5, 0.0, 0
             while time.time() < end:
                 now = time.time() - t0
+                # B keeps beating (real PUT /instance/beat, through a different node every time) until the sampling ends
+                if "B" not in regs and now >= beat_at:
+                    r = cl.nodes[3].call({"op": "ns_http_register", "service": SVC13, "ip": beat_ip, "port": 80})
+                    if r.get("res") != "ok":
+                        raise ToolError("HTTP register failed: %s" % r)
+                    regs["B"] = now
+                    last_beat = now
+                elif "B" in regs and now - last_beat >= 1.2:
+                    r = cl.nodes[1 + nbeats % 3].call({"op": "ns_http_beat", "service": SVC13, "ip": beat_ip, "port": 80})
+                    if r.get("res") != "ok":
+                        raise ToolError("HTTP heart-beat failed: %s" % r)
+                    nbeats += 1
+                    last_beat = now
                 for name, at, via in plan:
                     if name not in regs and now >= at:
                         r = cl.nodes[via].call({"op": "ns_http_register", "service": SVC13, "ip": insts[name], "port": 80})
@@ -93,6 +107,17 @@ def expiry_run(sc, out):
             if owner is None:
                 raise ToolError("no node holds %s as its own instance" % name)
             obs += _observe(samples, t0, name, ip, owner, list(cl.nodes), regs, "expiry")
+        # the beating instance: first seen / first reported unhealthy-or-missing after that, per node
+        reg_ms = int(regs["B"] * 1000)
+        nodes = []
+        for n in cl.nodes:
+            seen = _first(samples, n, lambda st: beat_ip in st)
+            bad = _first(samples, n, lambda st: beat_ip not in st or not st[beat_ip][0], seen) if seen != NEVER else NEVER
+            nodes.append({"n": n, "t_seen": seen, "t_bad": bad})
+        obs.append({"kind": "beating", "instance": "B", "ip": beat_ip, "state": "beating", "nodes": nodes, "registered_at_ms": reg_ms,
+                    "beats": nbeats, "end": samples[-1][0]})
+        if nbeats < 12:
+            raise ToolError("the beating instance sent only %d heart-beats" % nbeats)
         out["expiry"] = (obs, len(samples))
     except Exception as e:      # noqa - reported by the caller
         out["expiry_error"] = e
@@ -169,6 +194,14 @@ def cluster_leg(c, sc):
     c.add_mc({"generated": 2, "distinct": 2, "depth": 2, "wall_s": 0, "actions": {}, "cfg": "CHK_ExpiryCluster.cfg", "module": "ExpiryCluster.tla"})
     for req, i in [(m.group(1), int(m.group(2))) for m in re.finditer(r'<<"REQ-FAILED", "(\w+)", (\d+)>>', r.stdout)]:
         o = obs[i - 1]
+        if o["kind"] == "beating":
+            c.violation("C13:NeverWhileBeating@cluster",
+                        "real 3-node cluster: instance B (registered over HTTP at %d ms, %d heart-beats through PUT /instance/beat, one every 1.2 s, "
+                        "health time-out 4 s) was not held healthy by every node until the sampling ended at %d ms: per node first seen / first "
+                        "reported unhealthy or missing = %s (%d = never)" % (o["registered_at_ms"], o["beats"], o["end"],
+                                                                               [(x["n"], x["t_seen"], x["t_bad"]) for x in o["nodes"]], NEVER),
+                        {"observation": o})
+            continue
         c.violation("C13:%s@cluster:%s:%s" % (req, o["kind"], o["state"]),
                     "real 3-node cluster (%s): instance %s (time-out clock started at %d ms, no heartbeats) became %s on its responsible node %d at %d ms "
                     "(configured time-out %d ms, sampling ended at %d ms), the other nodes reported it at %s "
@@ -177,6 +210,7 @@ def cluster_leg(c, sc):
                        o["cfg"], o["end"], [(x["n"], x["t"]) for x in o["others"]], NEVER),
                     {"observation": o})
     c.count(len(obs), [{"i": o["instance"], "s": o["state"]} for o in obs])
+    c.cov["cluster_heart_beats_sent"] = sum(o.get("beats", 0) for o in obs)
     c.traces(2)
     c.cov["cluster_state_changes_observed"] = len(obs)
     c.cov["cluster_samples"] = nsamples
